@@ -129,7 +129,10 @@ def frame_note(repo, fi):
     mutated = mutated_cached(repo)
     bad = [how for _, how in writes_of(fi, mod)] + reads_of_mutated(fi, mod, mutated)
     if fi.cls is not None and 'Enum' not in fi.cls.bases:
-        mutable = [a for a, v in fi.cls.class_attrs.items() if isinstance(v, (ast.Dict, ast.List, ast.Set, ast.Call, ast.ListComp, ast.DictComp, ast.SetComp))]
+        kinds = (ast.Dict, ast.List, ast.Set, ast.Call, ast.ListComp, ast.DictComp, ast.SetComp)
+        mutable = [a for a, v in fi.cls.class_attrs.items() if isinstance(v, kinds)]
+        if not fi.cls.is_dataclass:
+            mutable += [a for a, v in fi.cls.fields if isinstance(v, kinds)]       # annotated class-level assignments
         if mutable:
             bad.append(f'class {fi.cls.name} has mutable class attributes {mutable}')
     return sorted(set(bad))
